@@ -295,7 +295,8 @@ def run_one(ch, ctx):
         ctx.probe("both_in_writer_dump")
     if _both_in(sc, {"_validate", "_validate_record", "_validate_union", "validate"}):
         ctx.probe("both_in_validate")
-    ctx.ev("sched", sc.signature(), sc.step, len(sc.switches))
+    ctx.ev_sched("sched", sc.signature(), sc.step, len(sc.switches))
+    ctx.ev("ops", json.dumps(desc["tasks"], sort_keys=True, default=str))
     ctx.sample = {"scenario": desc, "strategy": list(strategy), "switches": len(sc.switches),
                   "first_switches": [list(s) for s in sc.switches[:6]]}
     bad = _diff(solo, res, len(tasks))
